@@ -78,9 +78,11 @@ impl Numeric {
                     Numeric::Rational(rem),
                 )
             }
-            Parity::Float(left, right) => {
-                (Numeric::Float(left / right), Numeric::Float(left % right))
-            }
+            Parity::Float(left, right) => (
+                // the quotient is whole, like in the rational case
+                Numeric::Float((left / right).trunc()),
+                Numeric::Float(left % right),
+            ),
         }
     }
 
